@@ -391,6 +391,46 @@ func c07Tables(c *Case) {
 		}
 		c.Count("point_lookups", 1)
 	}
+	// a stored numeric key is also addressed by its other representation (INTEGER n <-> REAL n.0, +0.0 <-> -0.0)
+	for i, v := range vals {
+		var tw interface{}
+		switch x := v.(type) {
+		case int64:
+			if f := float64(x); int64(f) == x && f < 9e18 && f > -9e18 {
+				tw = f
+			}
+		case float64:
+			if x == 0 {
+				tw = math.Copysign(0, -1)
+				if math.Signbit(x) {
+					tw = float64(0)
+				}
+			} else if x == float64(int64(x)) && x < 9e18 && x > -9e18 {
+				tw = int64(x)
+			}
+		}
+		if tw == nil {
+			continue
+		}
+		rv, err := conn.Rows("select a from "+vt+" where k = ?", tw)
+		c.Count("twin_lookups", 1)
+		if err != nil || len(rv) != 1 || rv[0] != fmt.Sprintf("i:%d", i) {
+			c.Violate("C07:twin-lookup:"+classOf(v), fmt.Sprintf("where k = %s (the stored key is %s) returned %v (err %v), want a=%d", lit(tw), lit(v), rv, err, i), canon.String())
+			return
+		}
+	}
+	// a second INSERT of a stored key is a constraint failure whatever write time it carries
+	for j := 0; j < 4 && len(vals) > 0; j++ {
+		v := vals[r.Intn(len(vals))]
+		conn.SetWriteTime(50 + j) // far older than the rows (inserted on the default clock)
+		err := conn.Exec("insert into "+vt+" values (?,?)", v, "again")
+		conn.ClearWriteTime()
+		c.Count("older_stamped_second_inserts", 1)
+		if errClass(err) != "constraint-pk" {
+			c.Violate("C07:second-insert-older-write-time-"+errClass(err), fmt.Sprintf("a second INSERT of stored key %s with an older write_time gave %v, want a primary key constraint failure", lit(v), err), canon.String())
+			return
+		}
+	}
 	// NULL key
 	if err := conn.Exec("insert into " + vt + " values (NULL, 1)"); err == nil {
 		c.Violate("C07:null-key-accepted", "INSERT of a NULL key succeeded", nil)
